@@ -509,7 +509,9 @@ def c09(tier, seed):
     try:
         cases = select_cases(tier, seed, ("flat", "blocks"), 20, 300)
         if tier == "quick" and not common.replay_cases():
-            cases = random.Random(seed + 9).sample(cases, min(len(cases), 130))      # a seeded subset per quick run
+            always = [c for c in cases if set(c.get("tags", [])) & {"leftover", "crossed-derived", "weighted-derived-level"}]
+            rest = [c for c in cases if c not in always]
+            cases = always + random.Random(seed + 9).sample(rest, min(len(rest), 120))      # a seeded subset per quick run
         for batch in batches(cases):
             def ops1(c):
                 return [{"op": "synth", "strategy": SAT, "n": 400, "exhaust": True},
@@ -524,9 +526,17 @@ def c09(tier, seed):
                     if not o or o["status"] != "returned" or oi not in r.enumerated:
                         continue
                     if r.missing[oi] or any(v != "ok" for v in r.verdicts[oi]):
-                        continue        # C02 / C06 report that; availability is unknown here
+                        continue        # C02 / C06 report that; availability is not known from this sampler
                     judge_distinct("C09", r, oi, out)
                     avail[(canon(r.case), name)] = o["count"]
+                # the number of available sequences is a fact about the design: when one sampler's exhausted set was proved equal
+                # to the specification's valid set, that count is what every sampler has to deliver
+                known = [avail[(canon(r.case), s)] for s in (SAT, RND) if (canon(r.case), s) in avail]
+                if known:
+                    for oi, name in ((1, SAT), (2, RND)):
+                        o = r.obs[oi] if oi < len(r.obs) else None
+                        if o and o["status"] == "returned" and (canon(r.case), name) not in avail and not partially_crossed_weighted(r.case):
+                            avail[(canon(r.case), name)] = known[0]
             todo = [r.case for r in res if any((canon(r.case), s) in avail for s in (SAT, RND))]
 
             def ops2(c):
